@@ -84,6 +84,18 @@ theorem n_stabilizers_formula (Lx Ly Lz : Nat) :
 theorem k_value (Lx Ly Lz : Nat) : (lattice Lx Ly Lz).toCodeData.k = 1 := by
   simp only [Lattice.toCodeData, CodeData.k, lattice_logX]; rfl
 
+/-- CSS structure for every size: a stabilizer location is a `'vertex'` whose operator carries only Z
+    (on at most 6 qubits) or a `'face'` whose operator carries only X (on at most 4 qubits). -/
+theorem stabilizer_shape (Lx Ly Lz : Nat) {s : Coord}
+    (hs : s ∈ (lattice Lx Ly Lz).stabs) :
+    (Planar3DCode.stabilizerType Lx Ly Lz s = some StabType.vertex ∧
+      ∃ ks, (lattice Lx Ly Lz).getStab s = uop ks Pauli.Z ∧ ks.length ≤ 6) ∨
+    (Planar3DCode.stabilizerType Lx Ly Lz s = some StabType.face ∧
+      ∃ ks, (lattice Lx Ly Lz).getStab s = uop ks Pauli.X ∧ ks.length ≤ 4) := by
+  rw [lattice_stabs] at hs
+  rw [lattice_getStab]
+  exact stab_shape hs
+
 /-- `get_deformation('XZZX', axis)` on every qubit of every size: the qubit has an axis (x, y, z
     for the three blocks of `get_qubit_coordinates`), and the deformation is X↔Z exactly on the
     qubits whose axis is the deformation axis, the identity elsewhere. -/
